@@ -6,13 +6,15 @@ import (
 	"sort"
 	"strconv"
 	"strings"
-	"sync"
 
 	"gaeaverif/harness/core"
 
 	"github.com/XiaoMi/Gaea/log"
 	"github.com/XiaoMi/Gaea/models"
 	"github.com/XiaoMi/Gaea/parser"
+	"github.com/XiaoMi/Gaea/parser/ast"
+	"github.com/XiaoMi/Gaea/parser/opcode"
+	driver "github.com/XiaoMi/Gaea/parser/tidb-types/parser_driver"
 	"github.com/XiaoMi/Gaea/proxy/plan"
 	"github.com/XiaoMi/Gaea/proxy/router"
 	"github.com/XiaoMi/Gaea/proxy/sequence"
@@ -20,21 +22,24 @@ import (
 
 // C04 — statements that involve only global tables (proxy/plan, proxy/router).
 //
-// Line: (g04 (ns SLICE…) (valid DB…) (cfgs GCFG…) STMT)
-//   GCFG  (gcfg DB (locations…) (slices…) (databases expanded…) (databases as configured…))   one per table reference
-//   STMT  (stmt select|update|delete|insert SQLHEX (NAME…) (NAME…) (NAME…))    names of the field list / FROM part / rest, in text order
-//   NAME  (POS SCHEMA TABLE NAME ALIAS WHOLE)
-// The k-th table reference of the statement is the global table g04Tables[k].
-// Exec builds a namespace from (ns, cfgs), plans SQLHEX and reports, per
-// produced statement, slice, database and the chains of back-quoted
-// identifiers of the SQL text. A SELECT is planned repeatedly (the copy is
-// chosen with math/rand) and the distinct statements are reported.
-
-var g04Tables = []string{"ga", "gb"}
+// Line: (g04 (ns SLICE…) (valid DB…) (sess DB) (rules (rule DB TABLE GCFG)…) STMT)
+//   GCFG  (gcfg DB (locations…) (slices…) (databases expanded…) (databases as configured…))
+//   STMT  (stmt select|update|delete|insert SQLHEX (fields F…) (from TREF…) (cols COL…) (rows (row E…)…)
+//               (sets (set COL E)…) (ondup (set COL E)…) (where E|-) (group BY…) (having E|-) (order BY…))
+//         the tree the repository's parser produced for SQLHEX, reduced to the node kinds the
+//         planner distinguishes (g04Tree); grammar in lean/GaeaVerif/Drv/C04.lean
+// Exec builds a fresh router from (ns, rules), plans SQLHEX from a session whose current
+// database is DB and reports, per produced statement, slice, database and the chains of
+// back-quoted identifiers of the SQL text; `(unshard)` when BuildPlan answers with an unshard
+// plan. A SELECT is planned repeatedly (the copy is chosen with math/rand) and the distinct
+// statements are reported. The router's rules are rendered before and after the plannings:
+// `(router-state-changed …)` when they differ.
 
 const g04DB = "db_g"
+const g04OtherDB = "db_o"
 
 type g04Cfg struct {
+	db        string
 	locations []int
 	slices    []string
 	dbsRaw    []string // as configured
@@ -42,11 +47,11 @@ type g04Cfg struct {
 }
 
 func (c *g04Cfg) sexp() core.Sexp {
-	return core.L(core.A("gcfg"), core.A(g04DB), core.Ints(c.locations), insIdents(c.slices), insIdents(c.dbs), insIdents(c.dbsRaw))
+	return core.L(core.A("gcfg"), core.A(c.db), core.Ints(c.locations), insIdents(c.slices), insIdents(c.dbs), insIdents(c.dbsRaw))
 }
 
 func g04CfgFromSexp(s core.Sexp) *g04Cfg {
-	c := &g04Cfg{}
+	c := &g04Cfg{db: s.Nth(1).Atom}
 	for _, x := range s.Nth(2).List {
 		c.locations = append(c.locations, int(x.Int()))
 	}
@@ -59,10 +64,20 @@ func g04CfgFromSexp(s core.Sexp) *g04Cfg {
 	return c
 }
 
+func (c *g04Cfg) copies() int {
+	n := 0
+	for _, l := range c.locations {
+		if l > 0 {
+			n += l
+		}
+	}
+	return n
+}
+
 func (c *g04Cfg) json(table string) string {
 	loc, _ := json.Marshal(c.locations)
 	sl, _ := json.Marshal(c.slices)
-	s := fmt.Sprintf(`{"db":"%s","table":"%s","type":"global","locations":%s,"slices":%s`, g04DB, table, loc, sl)
+	s := fmt.Sprintf(`{"db":"%s","table":"%s","type":"global","locations":%s,"slices":%s`, c.db, table, loc, sl)
 	if len(c.dbsRaw) > 0 {
 		d, _ := json.Marshal(c.dbsRaw)
 		s += `,"databases":` + string(d)
@@ -70,361 +85,725 @@ func (c *g04Cfg) json(table string) string {
 	return s + "}"
 }
 
-var (
-	g04Mu      sync.Mutex
-	g04Routers = map[string]*router.Router{}
-	g04Errs    = map[string]error{}
-)
+type g04Rule struct {
+	db, table string
+	cfg       *g04Cfg
+}
 
-// g04Router builds (and caches) the router of a namespace with the given
-// slices, one global rule per table and one more logical database.
-func g04Router(ns []string, cfgs []*g04Cfg) (*router.Router, error) {
-	var shards []string
-	for i, c := range cfgs {
-		shards = append(shards, c.json(g04Tables[i]))
+func g04RulesSexp(rules []g04Rule) core.Sexp {
+	out := []core.Sexp{core.A("rules")}
+	for _, r := range rules {
+		out = append(out, core.L(core.A("rule"), core.A(r.db), core.A(r.table), r.cfg.sexp()))
 	}
-	shards = append(shards, fmt.Sprintf(`{"db":"db_o","table":"oz","type":"global","locations":[1],"slices":["%s"]}`, ns[0]))
-	key := strings.Join(ns, ",") + "|" + strings.Join(shards, ",")
-	g04Mu.Lock()
-	defer g04Mu.Unlock()
-	if rt, ok := g04Routers[key]; ok {
-		return rt, g04Errs[key]
-	}
+	return core.L(out...)
+}
+
+// g04NewRouter builds the router of a namespace with the given slices and global rules.
+// Every Exec gets a router of its own, so that a case is a pure function of its line.
+func g04NewRouter(ns []string, rules []g04Rule) (*router.Router, error) {
 	log.SetGlobalLogger(nullLogger{})
+	var shards []string
+	for _, r := range rules {
+		shards = append(shards, r.cfg.json(r.table))
+	}
 	nsJSON := `{"name":"ns_g04","online":true,"allowed_dbs":{"db_g":true,"db_o":true},"default_phy_dbs":{"db_g":"db_g","db_o":"db_o"},
 "slices":[` + insSliceJSON(ns...) + `],"shard_rules":[` + strings.Join(shards, ",") + `],
 "users":[{"user_name":"u","password":"p","namespace":"ns_g04","rw_flag":2,"rw_split":1}],"default_slice":"` + ns[0] + `"}`
 	m := &models.Namespace{}
-	var rt *router.Router
-	err := json.Unmarshal([]byte(nsJSON), m)
-	if err == nil {
-		rt, err = router.NewRouter(m)
+	if err := json.Unmarshal([]byte(nsJSON), m); err != nil {
+		return nil, err
 	}
-	if len(g04Routers) > 4096 {
-		g04Routers = map[string]*router.Router{}
-		g04Errs = map[string]error{}
-	}
-	g04Routers[key] = rt
-	g04Errs[key] = err
-	return rt, err
+	return router.NewRouter(m)
 }
 
-// ---- statement builder: SQL text and name skeleton side by side ----
-
-type g04Name struct {
-	pos, schema, table, name, alias string
-	whole                           bool
+// g04Snapshot renders everything of the router's rules that planning can reach
+// through the Rule interface; planning must leave it unchanged.
+func g04Snapshot(rt *router.Router) string {
+	var parts []string
+	for db, rules := range rt.GetAllRules() {
+		for tbl, r := range rules {
+			var dbs []string
+			if mr, ok := r.(router.MycatRule); ok {
+				dbs = append(dbs, mr.GetDatabases()...)
+			}
+			line := fmt.Sprintf("%s.%s|%s|%v|%d|%d|%v|%v", db, tbl, r.GetType(), r.GetSubTableIndexes(),
+				r.GetFirstTableIndex(), r.GetLastTableIndex(), r.GetSlices(), dbs)
+			for i := 0; i < len(r.GetSubTableIndexes()); i++ {
+				d, _ := r.GetDatabaseNameByTableIndex(i)
+				line += fmt.Sprintf("|%d>%d,%s", i, r.GetSliceIndexFromTableIndex(i), d)
+			}
+			parts = append(parts, line)
+		}
+	}
+	d := rt.GetDefaultRule()
+	parts = append(parts, fmt.Sprintf("default|%s|%v|%v", d.GetType(), d.GetSubTableIndexes(), d.GetSlices()))
+	sort.Strings(parts)
+	return strings.Join(parts, "\n")
 }
 
-func (n g04Name) sexp() core.Sexp {
-	return core.L(core.A(n.pos), insIdent(n.schema), insIdent(n.table), insIdent(n.name), insIdent(n.alias), core.B(n.whole))
+// ---- translator: the parser's tree, reduced to the node kinds of Model/GlobalTree.lean ----
+
+var g04V = core.A("v")
+
+// g04Node nests the children of a node the planner only traverses to the right
+func g04Node(children []ast.ExprNode) core.Sexp {
+	switch len(children) {
+	case 0:
+		return g04V
+	case 1:
+		return core.L(core.A("node"), g04Expr(children[0]), g04V)
+	}
+	out := g04Expr(children[len(children)-1])
+	for i := len(children) - 2; i >= 0; i-- {
+		out = core.L(core.A("node"), g04Expr(children[i]), out)
+	}
+	return out
+}
+
+func g04ColName(head string, n *ast.ColumnName) core.Sexp {
+	return core.L(core.A(head), insIdent(n.Schema.O), insIdent(n.Table.O), insIdent(n.Name.O))
+}
+
+func g04Expr(e ast.ExprNode) core.Sexp {
+	switch x := e.(type) {
+	case *ast.ColumnNameExpr:
+		return g04ColName("col", x.Name)
+	case *driver.ValueExpr:
+		return g04V
+	case *ast.BinaryOperationExpr:
+		head := "binop"
+		switch x.Op {
+		case opcode.LogicAnd, opcode.LogicOr:
+			head = "logic"
+		case opcode.EQ, opcode.NE, opcode.GT, opcode.GE, opcode.LT, opcode.LE:
+			head = "cmp"
+		}
+		return core.L(core.A(head), g04Expr(x.L), g04Expr(x.R))
+	case *ast.PatternInExpr:
+		if x.Sel != nil {
+			panic("c04: sub query in IN")
+		}
+		return core.L(core.A("in"), g04Expr(x.Expr), g04Node(x.List))
+	case *ast.BetweenExpr:
+		return core.L(core.A("between"), g04Expr(x.Expr), g04Expr(x.Left), g04Expr(x.Right))
+	case *ast.ParenthesesExpr:
+		return core.L(core.A("paren"), g04Expr(x.Expr))
+	case *ast.FuncCallExpr:
+		if x.FnName.L == "database" {
+			panic("c04: DATABASE() hint")
+		}
+		return g04Node(x.Args)
+	case *ast.AggregateFuncExpr:
+		return g04Node(x.Args)
+	case *ast.IsNullExpr:
+		return g04Node([]ast.ExprNode{x.Expr})
+	case *ast.IsTruthExpr:
+		return g04Node([]ast.ExprNode{x.Expr})
+	case *ast.PatternLikeExpr:
+		return g04Node([]ast.ExprNode{x.Expr, x.Pattern})
+	case *ast.UnaryOperationExpr:
+		return g04Node([]ast.ExprNode{x.V})
+	case *ast.ValuesExpr:
+		return g04Node([]ast.ExprNode{x.Column})
+	case *ast.RowExpr:
+		return g04Node(x.Values)
+	case *ast.CaseExpr:
+		var cs []ast.ExprNode
+		if x.Value != nil {
+			cs = append(cs, x.Value)
+		}
+		for _, w := range x.WhenClauses {
+			cs = append(cs, w.Expr, w.Result)
+		}
+		if x.ElseClause != nil {
+			cs = append(cs, x.ElseClause)
+		}
+		return g04Node(cs)
+	}
+	panic(fmt.Sprintf("c04: node %T is not part of the model", e))
+}
+
+func g04OptExpr(e ast.ExprNode) core.Sexp {
+	if e == nil {
+		return core.A("-")
+	}
+	return g04Expr(e)
+}
+
+func g04Join(j *ast.Join, out *[]core.Sexp) {
+	tref := func(rs ast.ResultSetNode, on *ast.OnCondition) {
+		ts, ok := rs.(*ast.TableSource)
+		if !ok {
+			panic(fmt.Sprintf("c04: table reference %T", rs))
+		}
+		tn, ok := ts.Source.(*ast.TableName)
+		if !ok {
+			panic(fmt.Sprintf("c04: table source %T", ts.Source))
+		}
+		var onExpr ast.ExprNode
+		if on != nil {
+			onExpr = on.Expr
+		}
+		*out = append(*out, core.L(core.A("tref"), insIdent(tn.Schema.O), insIdent(tn.Name.O), insIdent(ts.AsName.O), g04OptExpr(onExpr)))
+	}
+	switch l := j.Left.(type) {
+	case *ast.Join:
+		g04Join(l, out)
+	default:
+		tref(l, nil)
+	}
+	if j.Right != nil {
+		tref(j.Right, j.On)
+	}
+}
+
+func g04ByItems(items []*ast.ByItem) []core.Sexp {
+	var out []core.Sexp
+	for _, it := range items {
+		switch x := it.Expr.(type) {
+		case *ast.ColumnNameExpr:
+			out = append(out, g04ColName("bcol", x.Name))
+		case *ast.AggregateFuncExpr:
+			out = append(out, core.L(core.A("bagg"), g04Expr(x)))
+		case *driver.ValueExpr, *ast.PositionExpr:
+			out = append(out, core.A("blit"))
+		default:
+			out = append(out, core.A("bother"))
+		}
+	}
+	return out
+}
+
+func g04Assignments(as []*ast.Assignment) []core.Sexp {
+	var out []core.Sexp
+	for _, a := range as {
+		out = append(out, core.L(core.A("set"), g04ColName("c", a.Column), g04Expr(a.Expr)))
+	}
+	return out
+}
+
+// g04SingleTargetDelete: DELETE tbl FROM tbl … (the multiple-table syntax naming its only table, in the
+// same database, without alias), which the planner turns into DELETE FROM tbl … (simplifySingleTargetDelete);
+// the model sees the single-table form. Other target lists are not modelled.
+func g04SingleTargetDelete(s *ast.DeleteStmt, sess string) bool {
+	if s.Tables == nil || len(s.Tables.Tables) != 1 {
+		return false
+	}
+	j := s.TableRefs.TableRefs
+	ts, ok := j.Left.(*ast.TableSource)
+	if !ok || j.Right != nil || ts.AsName.L != "" {
+		return false
+	}
+	tn, ok := ts.Source.(*ast.TableName)
+	if !ok {
+		return false
+	}
+	db := func(n *ast.TableName) string {
+		if n.Schema.L != "" {
+			return n.Schema.L
+		}
+		return sess
+	}
+	target := s.Tables.Tables[0]
+	return target.Name.L == tn.Name.L && db(target) == db(tn)
+}
+
+// g04Tree is the STMT form of a parsed statement (planned from a session on database sess).
+func g04Tree(sql string, node ast.StmtNode, sess string) core.Sexp {
+	sec := func(head string, xs []core.Sexp) core.Sexp {
+		return core.L(append([]core.Sexp{core.A(head)}, xs...)...)
+	}
+	var kind string
+	var fields, from, cols, rows, sets, ondup, group, order []core.Sexp
+	where, having := core.A("-"), core.A("-")
+	switch s := node.(type) {
+	case *ast.SelectStmt:
+		kind = "select"
+		for _, f := range s.Fields.Fields {
+			switch {
+			case f.WildCard != nil && f.WildCard.Table.O == "" && f.WildCard.Schema.O == "":
+				fields = append(fields, core.A("star"))
+			case f.WildCard != nil:
+				fields = append(fields, core.L(core.A("wild"), insIdent(f.WildCard.Schema.O), insIdent(f.WildCard.Table.O)))
+			default:
+				if f.AsName.O != "" {
+					panic("c04: field alias")
+				}
+				fields = append(fields, core.L(core.A("fx"), g04Expr(f.Expr)))
+			}
+		}
+		g04Join(s.From.TableRefs, &from)
+		where = g04OptExpr(s.Where)
+		if s.GroupBy != nil {
+			group = g04ByItems(s.GroupBy.Items)
+		}
+		if s.Having != nil {
+			having = g04Expr(s.Having.Expr)
+		}
+		if s.OrderBy != nil {
+			order = g04ByItems(s.OrderBy.Items)
+		}
+	case *ast.UpdateStmt:
+		kind = "update"
+		g04Join(s.TableRefs.TableRefs, &from)
+		sets = g04Assignments(s.List)
+		where = g04OptExpr(s.Where)
+		if s.Order != nil {
+			order = g04ByItems(s.Order.Items)
+		}
+	case *ast.DeleteStmt:
+		kind = "delete"
+		if s.IsMultiTable && !g04SingleTargetDelete(s, sess) {
+			panic("c04: multi-table DELETE")
+		}
+		g04Join(s.TableRefs.TableRefs, &from)
+		where = g04OptExpr(s.Where)
+		if s.Order != nil {
+			order = g04ByItems(s.Order.Items)
+		}
+	case *ast.InsertStmt:
+		kind = "insert"
+		if s.Select != nil {
+			panic("c04: INSERT … SELECT")
+		}
+		g04Join(s.Table.TableRefs, &from)
+		for _, c := range s.Columns {
+			cols = append(cols, g04ColName("c", c))
+		}
+		for _, row := range s.Lists {
+			r := []core.Sexp{core.A("row")}
+			for _, e := range row {
+				r = append(r, g04Expr(e))
+			}
+			rows = append(rows, core.L(r...))
+		}
+		sets = g04Assignments(s.Setlist)
+		ondup = g04Assignments(s.OnDuplicate)
+	default:
+		panic(fmt.Sprintf("c04: statement %T", node))
+	}
+	return core.L(core.A("stmt"), core.A(kind), core.Text(sql), sec("fields", fields), sec("from", from), sec("cols", cols),
+		sec("rows", rows), sec("sets", sets), sec("ondup", ondup), core.L(core.A("where"), where), sec("group", group),
+		core.L(core.A("having"), having), sec("order", order))
+}
+
+// g04Line builds the input line of one statement; ok = false when the statement does not parse
+// or has a shape the model does not represent (a join nested to the right, a sub query, …).
+func g04Line(ns []string, sess string, rules []g04Rule, sql string) (line core.Sexp, ok bool) {
+	node, err := parser.ParseSQL(sql)
+	if err != nil {
+		return core.Sexp{}, false
+	}
+	defer func() {
+		if e := recover(); e != nil {
+			if msg, isStr := e.(string); !isStr || !strings.HasPrefix(msg, "c04: ") {
+				panic(e)
+			}
+			line, ok = core.Sexp{}, false
+		}
+	}()
+	return core.L(core.A("g04"),
+		core.L(append([]core.Sexp{core.A("ns")}, insIdents(ns).List...)...),
+		core.L(core.A("valid"), core.A(g04DB), core.A(g04OtherDB)),
+		core.L(core.A("sess"), insIdent(sess)),
+		g04RulesSexp(rules),
+		g04Tree(sql, node, sess)), true
+}
+
+// ---- statement generator: SQL text; the tree comes from the parser ----
+
+type g04Ref struct {
+	db, table, alias string
 }
 
 type g04Builder struct {
 	g       *core.Gen
-	aliases []string // alias of table k ("" if none)
-	ntab    int
-	badLeft int // unresolvable qualifiers still to place (malformed stream)
+	sess    string
+	refs    []g04Ref
+	badLeft int // unresolvable qualifiers still to place
 	tags    map[string]bool
 }
 
 var g04Cols = []string{"id", "a", "b", "c"}
 
-// col renders a column of table k with a random qualification.
-func (b *g04Builder) col(pos string, k int) (string, g04Name) {
+func (b *g04Builder) otherDB(db string) string {
+	if db == g04DB {
+		return g04OtherDB
+	}
+	return g04DB
+}
+
+// qualifier renders the `[db.]table.` part of a column of a random table reference.
+func (b *g04Builder) qualifier(what string) string {
 	g := b.g
-	c := core.Pick(g, g04Cols)
-	n := g04Name{pos: pos, name: c}
-	tq := g04Tables[k]
-	if b.aliases[k] != "" && g.Intn(3) != 0 {
-		tq = b.aliases[k]
+	r := core.Pick(g, b.refs)
+	tq := r.table
+	if r.alias != "" && g.Intn(3) != 0 {
+		tq = r.alias
 	}
 	if b.badLeft > 0 && g.Intn(3) == 0 {
 		b.badLeft--
+		b.tags["bad-qualifier@"+what] = true
 		switch g.Intn(3) {
 		case 0:
-			n.table = "zz"
+			return "`zz`."
 		case 1:
-			n.schema, n.table = g04DB, "zz"
+			return "`" + r.db + "`.`zz`."
 		default:
-			n.schema, n.table = "nodb", tq
-		}
-		b.tags["bad-qualifier="+pos] = true
-	} else {
-		switch g.Intn(10) {
-		case 0, 1, 2:
-			// bare
-		case 3, 4, 5:
-			n.table = tq
-		case 6:
-			n.schema, n.table = "db_o", tq // another logical database the router knows
-		default:
-			n.schema, n.table = g04DB, tq
+			return "`nodb`.`" + tq + "`."
 		}
 	}
-	s := "`" + c + "`"
-	if n.table != "" {
-		s = "`" + n.table + "`." + s
+	switch g.Intn(10) {
+	case 0, 1, 2:
+		return ""
+	case 3, 4, 5:
+		return "`" + tq + "`."
+	case 6:
+		b.tags["schema@"+what] = true
+		return "`" + b.otherDB(r.db) + "`.`" + tq + "`." // another logical database the router knows
+	default:
+		b.tags["schema@"+what] = true
+		return "`" + r.db + "`.`" + tq + "`."
 	}
-	if n.schema != "" {
-		s = "`" + n.schema + "`." + s
-	}
-	if n.schema != "" {
-		b.tags["schema@"+pos] = true
-	}
-	return s, n
+}
+
+func (b *g04Builder) col(what string) string {
+	return b.qualifier(what) + "`" + core.Pick(b.g, g04Cols) + "`"
 }
 
 func (b *g04Builder) lit() string {
-	return core.Pick(b.g, []string{"1", "2", "17", "'x'", "0", "'db_g'", "3.5"})
+	return core.Pick(b.g, []string{"1", "2", "17", "'x'", "0", "'db_g'", "3.5", "NULL"})
 }
 
-// pred renders one predicate over the tables of the statement.
-func (b *g04Builder) pred() (string, []g04Name) {
+// operand renders a value expression.
+func (b *g04Builder) operand(what string, depth int) string {
 	g := b.g
-	k := g.Intn(b.ntab)
-	switch g.Intn(12) {
-	case 0, 1, 2:
-		s, n := b.col("condition-operand", k)
-		return s + " " + core.Pick(g, []string{"=", "!=", "<", "<=", ">", ">="}) + " " + b.lit(), []g04Name{n}
-	case 3:
-		s, n := b.col("condition-operand", k)
-		return b.lit() + " " + core.Pick(g, []string{"=", "<", ">="}) + " " + s, []g04Name{n}
-	case 4:
-		s, n := b.col("condition-operand", k)
-		not := ""
-		if g.Intn(3) == 0 {
-			not = "NOT "
+	k := g.Intn(20)
+	if depth <= 0 && k >= 14 {
+		k = g.Intn(14)
+	}
+	switch {
+	case k < 9:
+		return b.col(what)
+	case k < 14:
+		return b.lit()
+	case k < 16:
+		fn := core.Pick(g, []string{"ABS", "LOWER", "COALESCE", "IFNULL"})
+		if fn == "COALESCE" || fn == "IFNULL" {
+			return fn + "(" + b.operand(what, depth-1) + ", " + b.operand(what, depth-1) + ")"
 		}
-		return s + " " + not + "IN (1,2,3)", []g04Name{n}
-	case 5:
-		s, n := b.col("condition-operand", k)
-		not := ""
-		if g.Intn(3) == 0 {
-			not = "NOT "
-		}
-		return s + " " + not + "BETWEEN 1 AND 9", []g04Name{n}
-	case 6:
-		s, n := b.col("condition-other", k)
-		return s + " LIKE 'x%'", []g04Name{n}
-	case 7:
-		s, n := b.col("condition-other", k)
-		return s + " IS " + core.Pick(g, []string{"NULL", "NOT NULL"}), []g04Name{n}
-	case 8:
-		s, n := b.col("condition-other", k)
-		return "NOT (" + s + " = 1)", []g04Name{n}
-	case 9:
-		s, n := b.col("nested-condition-column", k)
-		if g.Intn(2) == 0 {
-			return "ABS(" + s + ") = 1", []g04Name{n}
-		}
-		return s + "+1 > 2", []g04Name{n}
-	case 10:
-		s1, n1 := b.col("condition-operand", k)
-		s2, n2 := b.col("condition-operand", g.Intn(b.ntab))
-		return s1 + " = " + s2, []g04Name{n1, n2}
+		return fn + "(" + b.operand(what, depth-1) + ")"
+	case k < 18:
+		return b.operand(what, depth-1) + core.Pick(g, []string{"+", "-", "*", " DIV ", " & "}) + b.operand(what, depth-1)
+	case k < 19:
+		return "(" + b.operand(what, depth-1) + ")"
 	default:
-		s1, n1 := b.pred()
-		s2, n2 := b.pred()
-		return "(" + s1 + " " + core.Pick(g, []string{"AND", "OR"}) + " " + s2 + ")", append(n1, n2...)
+		return "-" + b.col(what)
 	}
 }
 
-func (b *g04Builder) where() (string, []g04Name) {
+// cond renders a condition.
+func (b *g04Builder) cond(what string, depth int) string {
 	g := b.g
-	if g.Intn(4) == 0 {
-		return "", nil
+	k := g.Intn(100)
+	if depth <= 0 && (k >= 30 && k < 55) {
+		k = g.Intn(30)
 	}
-	s, ns := b.pred()
-	for g.Intn(3) == 0 {
-		s2, n2 := b.pred()
-		s += " " + core.Pick(g, []string{"AND", "OR"}) + " " + s2
-		ns = append(ns, n2...)
+	not := func() string {
+		if g.Intn(3) == 0 {
+			return "NOT "
+		}
+		return ""
 	}
-	return " WHERE " + s, ns
+	switch {
+	case k < 30:
+		b.tags["cond=compare"] = true
+		return b.operand(what, 1) + " " + core.Pick(g, []string{"=", "!=", "<", "<=", ">", ">="}) + " " + b.operand(what, 1)
+	case k < 45:
+		b.tags["cond=and-or"] = true
+		return b.cond(what, depth-1) + " " + core.Pick(g, []string{"AND", "OR"}) + " " + b.cond(what, depth-1)
+	case k < 52:
+		b.tags["cond=parentheses"] = true
+		return "(" + b.cond(what, depth-1) + ")"
+	case k < 55:
+		b.tags["cond=not"] = true
+		return "NOT (" + b.cond(what, depth-1) + ")"
+	case k < 65:
+		b.tags["cond=in"] = true
+		n := 1 + g.Intn(3)
+		var items []string
+		for i := 0; i < n; i++ {
+			if g.Intn(3) == 0 {
+				items = append(items, b.operand(what, 1))
+			} else {
+				items = append(items, b.lit())
+			}
+		}
+		return b.operand(what, 1) + " " + not() + "IN (" + strings.Join(items, ",") + ")"
+	case k < 73:
+		b.tags["cond=between"] = true
+		bound := func() string {
+			if g.Intn(3) == 0 {
+				return b.operand(what, 1)
+			}
+			return b.lit()
+		}
+		return b.operand(what, 1) + " " + not() + "BETWEEN " + bound() + " AND " + bound()
+	case k < 78:
+		b.tags["cond=like"] = true
+		return b.operand(what, 1) + " " + not() + "LIKE 'x%'"
+	case k < 83:
+		b.tags["cond=is-null"] = true
+		return b.operand(what, 1) + " IS " + not() + "NULL"
+	case k < 90:
+		b.tags["cond=other-operator"] = true
+		switch g.Intn(4) {
+		case 0:
+			return b.operand(what, 1) + " <=> " + b.operand(what, 1)
+		case 1:
+			return "(" + b.cond(what, 0) + ") XOR (" + b.cond(what, 0) + ")"
+		case 2:
+			return "(" + b.operand(what, 1) + "+1)*2"
+		default:
+			return b.operand(what, 1) + " & " + b.operand(what, 1)
+		}
+	case k < 95:
+		b.tags["cond=column"] = true
+		return b.col(what)
+	case k < 97:
+		return b.lit()
+	default:
+		b.tags["cond=function"] = true
+		return "ISNULL(" + b.operand(what, 1) + ")"
+	}
 }
 
-// tableRef renders the k-th table reference.
-func (b *g04Builder) tableRef(k int, allowAlias bool) (string, g04Name) {
-	g := b.g
-	n := g04Name{pos: "table", table: g04Tables[k]}
-	s := "`" + g04Tables[k] + "`"
-	if g.Intn(2) == 0 {
-		n.schema = g04DB
-		s = "`" + g04DB + "`." + s
+func (b *g04Builder) where() string {
+	if b.g.Intn(4) == 0 {
+		return ""
+	}
+	return " WHERE " + b.cond("where", 2)
+}
+
+// tableRef renders a table reference; a table of another database than the session's is named
+// with its schema (unless `bare`, which then names a table without a rule).
+func (b *g04Builder) tableRef(r g04Ref, bare bool) string {
+	s := "`" + r.table + "`"
+	if !bare && (r.db != b.sess || b.g.Intn(2) == 0) {
+		s = "`" + r.db + "`." + s
 		b.tags["schema@table"] = true
 	}
-	if allowAlias && b.aliases[k] != "" {
-		n.alias = b.aliases[k]
-		s += " AS `" + n.alias + "`"
+	if r.alias != "" {
+		s += " AS `" + r.alias + "`"
 	}
-	return s, n
+	return s
 }
 
-func (b *g04Builder) orderBy(kw string) (string, []g04Name) {
-	s, n := b.col("by-item", b.g.Intn(b.ntab))
-	return " " + kw + " " + s, []g04Name{n}
-}
-
-func g04Stmt(g *core.Gen, kind string, ntab int, bad int) (sql string, fields, from, tail []g04Name, tags []string) {
-	b := &g04Builder{g: g, ntab: ntab, badLeft: bad, tags: map[string]bool{}, aliases: make([]string, ntab)}
-	aliasOK := kind == "select" || kind == "update"
-	for k := 0; k < ntab; k++ {
-		if aliasOK && g.Intn(3) == 0 {
-			b.aliases[k] = fmt.Sprintf("x%d", k)
+func (b *g04Builder) byItems(kw string) string {
+	g := b.g
+	n := 1
+	if g.Intn(4) == 0 {
+		n = 2
+	}
+	var items []string
+	for i := 0; i < n; i++ {
+		k := g.Intn(20)
+		var it string
+		switch {
+		case k < 14:
+			it = b.col("by-item")
+		case k < 17:
+			b.tags["by=aggregate"] = true
+			it = core.Pick(g, []string{"MAX", "MIN", "SUM", "COUNT"}) + "(" + b.operand("by-item-aggregate", 1) + ")"
+		case k < 18:
+			b.tags["by=literal"] = true
+			it = core.Pick(g, []string{"1", "NULL", "2"})
+		default:
+			b.tags["by=other"] = true
+			it = core.Pick(g, []string{"ABS(" + b.col("by-item") + ")", b.col("by-item") + "+1"})
 		}
+		if kw == "ORDER BY" && g.Intn(4) == 0 {
+			it += " DESC"
+		}
+		items = append(items, it)
+	}
+	return " " + kw + " " + strings.Join(items, ", ")
+}
+
+// g04Stmt renders one statement over the tables `tables` (all of one logical database).
+func g04Stmt(g *core.Gen, kind, sess string, tables []g04Ref, bad int) (sql string, tags []string) {
+	b := &g04Builder{g: g, sess: sess, badLeft: bad, tags: map[string]bool{}}
+	bare := sess != tables[0].db && g.Intn(12) == 0 // names (session db).table, which has no rule
+	if bare {
+		b.tags["table-unqualified-under-another-session"] = true
 	}
 	switch kind {
 	case "select":
+		n := 1
+		switch g.Intn(6) {
+		case 0, 1:
+			n = 2
+		case 2:
+			n = 3
+		}
+		if n > len(tables) {
+			n = len(tables)
+		}
+		for k := 0; k < n; k++ {
+			r := tables[k]
+			if k == 2 || g.Intn(3) == 0 {
+				r.alias = fmt.Sprintf("x%d", k)
+			}
+			b.refs = append(b.refs, r)
+		}
 		var fs []string
-		if g.Intn(3) == 0 {
+		if g.Intn(4) == 0 {
 			fs = append(fs, "*")
-		} else {
-			for i := 0; i < 1+g.Intn(3); i++ {
-				k := g.Intn(ntab)
-				switch g.Intn(8) {
-				case 0:
-					s, n := b.col("select-field", k)
-					fs = append(fs, "COUNT("+s+")")
-					fields = append(fields, n)
-				case 1:
-					s, n := b.col("select-field", k)
-					fs = append(fs, s+"+1")
-					fields = append(fields, n)
-				case 2:
-					tq := g04Tables[k]
-					if b.aliases[k] != "" {
-						tq = b.aliases[k]
+		}
+		for i := g.Intn(3); i >= 0 && (len(fs) == 0 || i > 0); i-- {
+			switch g.Intn(10) {
+			case 0:
+				fs = append(fs, core.Pick(g, []string{"COUNT", "MAX", "MIN", "SUM"})+"("+b.operand("select-field", 1)+")")
+			case 1:
+				fs = append(fs, b.operand("select-field", 1)+"+1")
+			case 2, 3:
+				q := b.qualifier("wildcard-field")
+				if q == "" {
+					q = "`" + b.refs[0].table + "`."
+					if b.refs[0].alias != "" {
+						q = "`" + b.refs[0].alias + "`."
 					}
-					n := g04Name{pos: "wildcard-field", table: tq, name: "*"}
-					s := "`" + tq + "`.*"
-					if g.Intn(2) == 0 {
-						n.schema = g04DB
-						s = "`" + g04DB + "`." + s
-						b.tags["schema@wildcard-field"] = true
-					}
-					fs = append(fs, s)
-					fields = append(fields, n)
-				default:
-					s, n := b.col("select-field", k)
-					n.whole = true
-					fs = append(fs, s)
-					fields = append(fields, n)
 				}
+				fs = append(fs, q+"*")
+				b.tags["field=wildcard"] = true
+			case 4:
+				fs = append(fs, "CASE WHEN "+b.cond("select-field", 0)+" THEN "+b.operand("select-field", 0)+" ELSE 0 END")
+			default:
+				fs = append(fs, b.col("select-field"))
 			}
 		}
-		sql = "SELECT " + strings.Join(fs, ",") + " FROM "
-		s0, n0 := b.tableRef(0, true)
-		sql += s0
-		from = append(from, n0)
-		if ntab == 2 {
-			s1, n1 := b.tableRef(1, true)
-			from = append(from, n1)
-			if g.Intn(4) == 0 {
-				sql += " JOIN " + s1
-			} else {
-				c0, m0 := b.col("condition-operand", 0)
-				c1, m1 := b.col("condition-operand", 1)
-				sql += " JOIN " + s1 + " ON " + c0 + " = " + c1
-				from = append(from, m0, m1)
+		sql = "SELECT " + strings.Join(fs, ",") + " FROM " + b.tableRef(b.refs[0], bare)
+		for k := 1; k < n; k++ {
+			switch g.Intn(8) {
+			case 0:
+				sql += ", " + b.tableRef(b.refs[k], bare)
+			case 1:
+				sql += " JOIN " + b.tableRef(b.refs[k], bare)
+			default:
+				// only the tables joined so far may be named in the ON condition
+				all := b.refs
+				b.refs = all[:k+1]
+				sql += " " + core.Pick(g, []string{"JOIN", "LEFT JOIN", "INNER JOIN"}) + " " + b.tableRef(all[k], bare) + " ON " + b.cond("on", 1)
+				b.refs = all
 			}
 		}
-		w, wn := b.where()
-		sql += w
-		tail = append(tail, wn...)
-		if g.Intn(6) == 0 {
-			s, n := b.orderBy("GROUP BY")
-			sql += s
-			tail = append(tail, n...)
+		sql += b.where()
+		if g.Intn(5) == 0 {
+			sql += b.byItems("GROUP BY")
 			b.tags["groupby"] = true
+			if g.Intn(3) == 0 {
+				sql += " HAVING " + b.cond("having", 1)
+				b.tags["having"] = true
+			}
 		}
 		if g.Intn(3) == 0 {
-			s, n := b.orderBy("ORDER BY")
-			sql += s
-			tail = append(tail, n...)
+			sql += b.byItems("ORDER BY")
 			b.tags["orderby"] = true
 		}
 		if g.Intn(5) == 0 {
 			sql += " LIMIT " + strconv.Itoa(1+g.Intn(9))
 		}
 	case "update":
-		s0, n0 := b.tableRef(0, true)
-		from = append(from, n0)
-		sql = "UPDATE " + s0 + " SET "
+		r := tables[0]
+		if g.Intn(3) == 0 {
+			r.alias = "x0"
+		}
+		b.refs = []g04Ref{r}
+		sql = "UPDATE " + b.tableRef(r, bare) + " SET "
 		var as []string
 		for i := 0; i < 1+g.Intn(2); i++ {
-			l, ln := b.col("set-column", 0)
-			tail = append(tail, ln)
+			l := b.col("set-column")
 			if g.Intn(3) == 0 {
-				r, rn := b.col("update-set-value", 0)
-				as = append(as, l+" = "+r+"+1")
-				tail = append(tail, rn)
+				as = append(as, l+" = "+b.operand("update-set-value", 2))
 			} else {
 				as = append(as, l+" = "+b.lit())
 			}
 		}
-		sql += strings.Join(as, ", ")
-		w, wn := b.where()
-		sql += w
-		tail = append(tail, wn...)
+		sql += strings.Join(as, ", ") + b.where()
 		if g.Intn(4) == 0 {
-			s, n := b.orderBy("ORDER BY")
-			sql += s
-			tail = append(tail, n...)
+			sql += b.byItems("ORDER BY")
 			b.tags["orderby"] = true
 		}
 		if g.Intn(5) == 0 {
 			sql += " LIMIT 3"
 		}
 	case "delete":
-		s0, n0 := b.tableRef(0, false)
-		from = append(from, n0)
-		sql = "DELETE FROM " + s0
-		w, wn := b.where()
-		sql += w
-		tail = append(tail, wn...)
+		b.refs = []g04Ref{tables[0]}
+		if !bare && g.Intn(8) == 0 {
+			// the multiple-table syntax naming its only table: neither ORDER BY nor LIMIT
+			b.tags["delete=target-list"] = true
+			sql = "DELETE " + b.tableRef(tables[0], false) + " FROM " + b.tableRef(tables[0], false) + b.where()
+			break
+		}
+		sql = "DELETE FROM " + b.tableRef(tables[0], bare) + b.where()
 		if g.Intn(4) == 0 {
-			s, n := b.orderBy("ORDER BY")
-			sql += s
-			tail = append(tail, n...)
+			sql += b.byItems("ORDER BY")
 			b.tags["orderby"] = true
 		}
 		if g.Intn(5) == 0 {
 			sql += " LIMIT 3"
 		}
 	case "insert":
-		s0, n0 := b.tableRef(0, false)
-		from = append(from, n0)
+		b.refs = []g04Ref{tables[0]}
 		verb := core.Pick(g, []string{"INSERT INTO", "INSERT INTO", "REPLACE INTO", "INSERT IGNORE INTO"})
-		bad := b.badLeft
-		b.badLeft = 0 // insert columns are not looked up
+		b.badLeft = 0 // the names of an INSERT are not looked up
+		value := func() string {
+			if g.Intn(4) == 0 {
+				b.tags["insert-value=expression"] = true
+				return b.operand("insert-value", 1)
+			}
+			return b.lit()
+		}
 		ncol := 1 + g.Intn(3)
 		var cs, vs []string
 		for i := 0; i < ncol; i++ {
-			c, cn := b.col("insert-column", 0)
-			cs = append(cs, c)
-			vs = append(vs, b.lit())
-			tail = append(tail, cn)
+			cs = append(cs, b.col("insert-column"))
+			vs = append(vs, value())
 		}
+		s0 := b.tableRef(tables[0], bare)
 		if g.Intn(4) == 0 {
 			var as []string
 			for i := range cs {
 				as = append(as, cs[i]+" = "+vs[i])
 			}
 			sql = verb + " " + s0 + " SET " + strings.Join(as, ", ")
+			b.tags["insert=set-form"] = true
 		} else {
 			rows := "(" + strings.Join(vs, ",") + ")"
 			if g.Intn(2) == 0 {
-				rows += ",(" + strings.Join(vs, ",") + ")"
+				var v2 []string
+				for range vs {
+					v2 = append(v2, value())
+				}
+				if g.Intn(15) == 0 {
+					v2 = v2[1:]
+					b.tags["insert=ragged-row"] = true
+				}
+				rows += ",(" + strings.Join(v2, ",") + ")"
 			}
-			sql = verb + " " + s0 + " (" + strings.Join(cs, ",") + ") VALUES " + rows
+			colList := " (" + strings.Join(cs, ",") + ")"
+			if g.Intn(20) == 0 {
+				colList = ""
+				b.tags["insert=no-column-list"] = true
+			}
+			sql = verb + " " + s0 + colList + " VALUES " + rows
 		}
-		if !strings.HasPrefix(verb, "REPLACE") && g.Intn(5) == 0 {
-			c, cn := b.col("insert-column", 0)
-			sql += " ON DUPLICATE KEY UPDATE " + c + " = 5"
-			tail = append(tail, cn)
+		if !strings.HasPrefix(verb, "REPLACE") && g.Intn(4) == 0 {
+			c := b.col("insert-column")
+			v := core.Pick(g, []string{"5", b.operand("insert-value", 1), "VALUES(" + b.col("insert-value") + ")"})
+			sql += " ON DUPLICATE KEY UPDATE " + c + " = " + v
+			b.tags["insert=on-duplicate"] = true
 		}
-		_ = bad
 	}
 	for t := range b.tags {
 		tags = append(tags, t)
@@ -433,8 +812,8 @@ func g04Stmt(g *core.Gen, kind string, ntab int, bad int) (sql string, fields, f
 	return
 }
 
-func g04GenCfg(g *core.Gen, ns []string) (*g04Cfg, string) {
-	c := &g04Cfg{}
+func g04GenCfg(g *core.Gen, ns []string, db string, allowBroken bool) (*g04Cfg, string) {
+	c := &g04Cfg{db: db}
 	k := 1 + g.Intn(len(ns))
 	if k > 3 {
 		k = 3
@@ -455,29 +834,29 @@ func g04GenCfg(g *core.Gen, ns []string) (*g04Cfg, string) {
 	case 0, 1:
 		if total >= 2 {
 			shape = "range-dbs"
-			c.dbsRaw = []string{fmt.Sprintf("db_g_[0-%d]", total-1)}
+			c.dbsRaw = []string{fmt.Sprintf("%s_[0-%d]", db, total-1)}
 		}
 	case 2:
 		if total >= 1 {
 			shape = "listed-dbs"
 			for i := 0; i < total; i++ {
-				c.dbsRaw = append(c.dbsRaw, fmt.Sprintf("db_p%d", i))
+				c.dbsRaw = append(c.dbsRaw, fmt.Sprintf("%s_p%d", db, i))
 			}
 			if g.Intn(3) == 0 {
-				c.dbsRaw[g.Intn(total)] = g04DB // one copy lives in a database named like the logical one
+				c.dbsRaw[g.Intn(total)] = db // one copy lives in a database named like the logical one
 			}
 		}
 	case 3:
 		if total >= 3 {
 			shape = "mixed-dbs"
-			c.dbsRaw = []string{"db_first", fmt.Sprintf("db_g_[1-%d]", total-1)}
+			c.dbsRaw = []string{db + "_first", fmt.Sprintf("%s_[1-%d]", db, total-1)}
 		}
 	}
-	if g.Intn(40) == 0 { // count mismatch: the router must refuse the namespace
+	if allowBroken && g.Intn(40) == 0 { // count mismatch: the router must refuse the namespace
 		shape = "dbs-count-mismatch"
 		c.dbsRaw = []string{"db_q0", "db_q1", "db_q2", "db_q3", "db_q4", "db_q5", "db_q6", "db_q7", "db_q8", "db_q9"}
 	}
-	if g.Intn(60) == 0 {
+	if allowBroken && g.Intn(60) == 0 {
 		shape = "locations-count-mismatch"
 		c.locations = append(c.locations, 1)
 	}
@@ -494,6 +873,7 @@ func g04GenCfg(g *core.Gen, ns []string) (*g04Cfg, string) {
 func genC04(g *core.Gen) {
 	n := g.Scale(3000, 30000)
 	all := []string{"slice-0", "slice-1", "slice-2", "slice-3"}
+	unparsable := 0
 	for i := 0; i < n; i++ {
 		nsN := 1 + g.Intn(4)
 		perm := g.Rand.Perm(4)
@@ -504,47 +884,63 @@ func genC04(g *core.Gen) {
 		if g.Intn(2) == 0 {
 			sort.Strings(ns)
 		}
-		cfg, shape := g04GenCfg(g, ns)
-		kind := core.Pick(g, []string{"select", "select", "select", "update", "delete", "insert"})
-		ntab := 1
-		if kind == "select" && g.Intn(3) == 0 {
-			ntab = 2
+		cfg, shape := g04GenCfg(g, ns, g04DB, true)
+		cfgO, _ := g04GenCfg(g, ns, g04OtherDB, false)
+		for cfgO.copies() == 0 { // the third table must not make the router refuse the namespace
+			cfgO, _ = g04GenCfg(g, ns, g04OtherDB, false)
 		}
+		rules := []g04Rule{{g04DB, "ga", cfg}, {g04DB, "gb", cfg}, {g04OtherDB, "oz", cfgO}}
+		// the tables of the statement: db_g.ga, db_g.gb, db_g.ga again (same layout), or db_o.oz alone
+		tables := []g04Ref{{g04DB, "ga", ""}, {g04DB, "gb", ""}, {g04DB, "ga", ""}}
+		used := cfg
+		if g.Intn(8) == 0 {
+			tables = []g04Ref{{g04OtherDB, "oz", ""}}
+			used = cfgO
+			shape = "other-database-table"
+		}
+		// the session's current database: the table's, the other logical one, or none
+		sess := tables[0].db
+		switch g.Intn(8) {
+		case 0, 1:
+			sess = g04DB
+			if tables[0].db == g04DB {
+				sess = g04OtherDB
+			}
+		case 2:
+			sess = ""
+		}
+		kind := core.Pick(g, []string{"select", "select", "select", "update", "delete", "insert"})
 		bad := 0
-		if g.Intn(25) == 0 {
+		if g.Intn(20) == 0 {
 			bad = 1
 		}
-		sql, fields, from, tail, tags := g04Stmt(g, kind, ntab, bad)
-		if _, err := parser.ParseSQL(sql); err != nil {
-			panic("c04: generated statement does not parse: " + sql + ": " + err.Error())
-		}
-		cfgs := []core.Sexp{core.A("cfgs")}
-		for k := 0; k < ntab; k++ {
-			cfgs = append(cfgs, cfg.sexp())
-		}
-		names := func(ns []g04Name) core.Sexp {
-			out := make([]core.Sexp, len(ns))
-			for i, x := range ns {
-				out[i] = x.sexp()
+		sql, tags := g04Stmt(g, kind, sess, tables, bad)
+		in, ok := g04Line(ns, sess, rules, sql)
+		if !ok {
+			unparsable++
+			if unparsable > n/20+5 {
+				panic("c04: too many generated statements do not parse, e.g. " + sql)
 			}
-			return core.L(out...)
+			continue
 		}
-		in := core.L(core.A("g04"),
-			core.L(append([]core.Sexp{core.A("ns")}, insIdents(ns).List...)...),
-			core.L(core.A("valid"), core.A(g04DB), core.A("db_o")),
-			core.L(cfgs...),
-			core.L(core.A("stmt"), core.A(kind), core.Text(sql), names(fields), names(from), names(tail)))
 		sameOrder := "rule-slices=prefix-of-namespace"
-		for j, s := range cfg.slices {
+		for j, s := range used.slices {
 			if j >= len(ns) || ns[j] != s {
 				sameOrder = "rule-slices=other-order-or-subset"
 			}
 		}
 		total := 0
-		for _, l := range cfg.locations {
+		for _, l := range used.locations {
 			total += l
 		}
-		tags = append(tags, "stmt="+kind, fmt.Sprintf("tables=%d", ntab), "layout="+shape, sameOrder, fmt.Sprintf("copies=%d", total))
+		sessTag := "session=table-database"
+		switch {
+		case sess == "":
+			sessTag = "session=none"
+		case sess != tables[0].db:
+			sessTag = "session=another-database"
+		}
+		tags = append(tags, "stmt="+kind, "layout="+shape, sameOrder, fmt.Sprintf("copies=%d", total), sessTag)
 		g.Emit(in, tags...)
 	}
 }
@@ -604,40 +1000,63 @@ func execC04(in core.Sexp) string {
 	for _, x := range in.Nth(1).List[1:] {
 		ns = append(ns, x.Atom)
 	}
-	var cfgs []*g04Cfg
-	copies := 0
-	for _, x := range in.Nth(3).List[1:] {
-		c := g04CfgFromSexp(x)
-		cfgs = append(cfgs, c)
+	sess := in.Nth(3).Nth(1).Atom
+	if sess == "-" {
+		sess = ""
 	}
-	for _, l := range cfgs[0].locations {
-		if l > 0 {
-			copies += l
+	var rules []g04Rule
+	copies := 0
+	for _, x := range in.Nth(4).List[1:] {
+		r := g04Rule{db: x.Nth(1).Atom, table: x.Nth(2).Atom, cfg: g04CfgFromSexp(x.Nth(3))}
+		rules = append(rules, r)
+		n := 0
+		for _, l := range r.cfg.locations {
+			if l > 0 {
+				n += l
+			}
+		}
+		if n > copies {
+			copies = n
 		}
 	}
-	rt, err := g04Router(ns, cfgs)
+	rt, err := g04NewRouter(ns, rules)
 	if err != nil {
 		return "err"
 	}
-	st := in.Nth(4)
-	kind := st.Nth(1).Atom
-	sql := st.Nth(2).Str()
+	before := g04Snapshot(rt)
+	out := g04Run(rt, sess, in.Nth(5).Nth(1).Atom, in.Nth(5).Nth(2).Str(), copies)
+	if g04Snapshot(rt) != before {
+		return "(router-state-changed " + out + ")"
+	}
+	return out
+}
+
+// g04Run plans the statement (a SELECT repeatedly) and renders what was produced; a panic of the
+// planner is the outcome "panic" (and the router is still compared by the caller).
+func g04Run(rt *router.Router, sess, kind, sql string, copies int) (out string) {
+	defer func() {
+		if e := recover(); e != nil {
+			out = "panic"
+		}
+	}()
 	phy := map[string]string{"db_g": "db_g", "db_o": "db_o"}
 	ps := parser.New()
-	planOnce := func() ([]string, error) {
+	planOnce := func() (entries []string, unshard bool, err error) {
 		node, err := ps.ParseOneStmt(sql, "", "")
 		if err != nil {
-			return nil, fmt.Errorf("parse")
+			return nil, false, fmt.Errorf("parse")
 		}
-		p, err := plan.BuildPlan(node, phy, g04DB, sql, rt, sequence.NewSequenceManager(), nil)
+		p, err := plan.BuildPlan(node, phy, sess, sql, rt, sequence.NewSequenceManager(), nil)
 		if err != nil {
-			return nil, err
+			return nil, false, err
+		}
+		if _, ok := p.(*plan.UnshardPlan); ok {
+			return nil, true, nil
 		}
 		m := plan.VerifPlanSQLs(p)
 		if m == nil {
-			return nil, fmt.Errorf("not a shard plan: %T", p)
+			return nil, false, fmt.Errorf("not a shard plan: %T", p)
 		}
-		var entries []string
 		for slice, dbs := range m {
 			for db, sqls := range dbs {
 				for _, q := range sqls {
@@ -646,12 +1065,15 @@ func execC04(in core.Sexp) string {
 			}
 		}
 		sort.Strings(entries)
-		return entries, nil
+		return entries, false, nil
 	}
 	if kind != "select" {
-		entries, err := planOnce()
+		entries, unshard, err := planOnce()
 		if err != nil {
 			return "err"
+		}
+		if unshard {
+			return "(unshard)"
 		}
 		if len(entries) == 0 {
 			return "(ok)"
@@ -663,9 +1085,12 @@ func execC04(in core.Sexp) string {
 	seen := map[string]bool{}
 	most := 0
 	for t := 0; t < tries; t++ {
-		entries, err := planOnce()
+		entries, unshard, err := planOnce()
 		if err != nil {
 			return "err"
+		}
+		if unshard {
+			return "(unshard)"
 		}
 		if len(entries) > most {
 			most = len(entries)
@@ -679,7 +1104,7 @@ func execC04(in core.Sexp) string {
 		all = append(all, e)
 	}
 	sort.Strings(all)
-	out := "(read " + strconv.Itoa(most)
+	out = "(read " + strconv.Itoa(most)
 	for _, e := range all {
 		out += " " + e
 	}
@@ -689,10 +1114,11 @@ func execC04(in core.Sexp) string {
 func init() {
 	core.Register(&core.Property{
 		ID: "C04",
-		Rule: "namespaces of 1–4 slices in any order; a global-table rule on 1–3 of them (same order as the namespace, another order, or a subset), 0–3 copies per slice, physical databases implicit, `db_g_[0-n]`, listed, mixed, or one named like the logical database; router-refused layouts (count mismatches); " +
-			"statements over one global table (SELECT, UPDATE, DELETE, INSERT/REPLACE in VALUES and SET form, ON DUPLICATE KEY) or two (SELECT … JOIN … ON), tables and columns bare / table- / alias- / schema-qualified (also with another known logical database), aliases, " +
-			"columns in select fields (plain, inside COUNT()/arithmetic, wildcards), comparison operands on either side, IN, BETWEEN, LIKE, IS NULL, NOT(…), function/arithmetic operands, column = column, AND/OR/parentheses, GROUP BY, ORDER BY, LIMIT, SET columns and values; a malformed stream with one unresolvable qualifier; " +
-			"a SELECT is planned 16·copies+16 times and the set of distinct statements compared with the model's set over every pick; non-trivial = statement accepted",
+		Rule: "namespaces of 1–4 slices in any order; a global-table rule (shared by db_g.ga and db_g.gb) on 1–3 of them (same order as the namespace, another order, or a subset), 0–3 copies per slice, physical databases implicit, `db_g_[0-n]`, listed, mixed, or one named like the logical database; a third global table db_o.oz with a layout of its own; router-refused layouts (count mismatches); " +
+			"sessions whose current database is the table's, the other logical database (tables then named with their schema; a few left unqualified, naming a table without a rule) or none; " +
+			"statements over one global table (SELECT, UPDATE, DELETE, INSERT/REPLACE in VALUES and SET form, ON DUPLICATE KEY, ragged rows, no column list) or a join of up to three references (JOIN/LEFT JOIN … ON, comma join, self join under an alias), tables and columns bare / table- / alias- / schema-qualified (also with the other known logical database), " +
+			"random expression trees: comparisons of columns, literals, function calls, arithmetic and parentheses on either side, AND/OR/NOT/parentheses, IN and BETWEEN with columns and expressions on the left and among the values/bounds, LIKE, IS NULL, <=>, XOR, arithmetic and bare columns as conditions, CASE in the field list; wildcard fields; GROUP BY/ORDER BY columns, aggregate functions, literals and unsupported items; HAVING; LIMIT; SET values and INSERT values with column references; one unresolvable qualifier in some statements; " +
+			"the statement's tree is taken from the repository's parser; a SELECT is planned 16·copies+16 times and the set of distinct statements compared with the model's set over every pick; the router's rules are rendered before and after every case; non-trivial = statement accepted",
 		Generate: genC04,
 		Exec:     execC04,
 		Trivial: func(in core.Sexp, out string) bool {
@@ -704,6 +1130,8 @@ func init() {
 			"math/rand reaches every copy within 16·copies+16 plannings of a SELECT (probability of a miss < 1e-7 per case)",
 			"a planner panic is recovered by SessionExecutor.handleQuery and reaches the client as an error: the oracle treats it as a rejection",
 			"column and table names of the generated statements are lower-case (handleExtraFieldList compares lower-cased names)",
+			"the reduction of the parser's tree to the node kinds of Model/GlobalTree.lean (g04Tree: which Go node type is which constructor, children in the order Restore prints them) is hand-written; a wrong reduction shows as a broken correspondence on the unchanged tree",
 		},
+		ShrinkKeep: []string{"stmt"},
 	})
 }
